@@ -317,6 +317,20 @@ def run(ctx) -> None:
                    "link targets are not tested against the archive's own links"),
                construct=short(call, 40) + " <- archive's own links")
         if ok:
+            # the names collected in the link set are NORMALISED like the paths that are looked up in it (relpath(realpath(..)) / normpath(..)): a link
+            # member spelled './b' (what 'tar -cf a.tar .' produces), './/b' or 'a/../b' must be found under 'b'
+            for nm in link_sets:
+                for v in local_defs(sr, nm):
+                    elts = [v.elt] if isinstance(v, (ast.SetComp, ast.ListComp, ast.GeneratorExp)) else [
+                        g_.elt for g_ in ast.walk(v) if isinstance(g_, (ast.SetComp, ast.ListComp, ast.GeneratorExp))]
+                    for e_ in elts:
+                        normalised = isinstance(e_, ast.Call) and call_name(e_) in ("os.path.normpath", "os.path.relpath", "os.path.realpath", "os.path.abspath")
+                        ctx.ob("C18.R5-archive-own-links", e_, normalised,
+                               "the names of the archive's links are collected in normalised form" if normalised else
+                               "the set of the archive's own links stores the names as spelled in the archive (%s) while the look-ups use normalised paths: a "
+                               "link member './b -> .' is never found under 'b', so 'b/b/../../x' passes (b is not on disk while the members are vetted) "
+                               "and is written two levels above the working directory" % short(e_, 30),
+                               construct="archive link names are normalised")
             # a link target may be ABSOLUTE and spell the destination itself ('<dest>/b/../victim' with 'b -> .' in the archive): a test that
             # compares lexical relative prefixes with the (relative) names of the archive's links never matches it.  The path that is looked up
             # among the archive's links is therefore expressed relative to the destination (it depends on the extraction root), or absolute
